@@ -336,6 +336,19 @@ func WriteTarArchive(st storage.Storer, w io.Writer, tree *object.Tree, commitHa
 func WriteZipArchive(st storage.Storer, w io.Writer, tree *object.Tree, commitHash *plumbing.Hash, prefix string, pathFilter []string, modTime time.Time) error {
 	zw := zip.NewWriter(w)
 
+	// Like canonical git, directories (the prefix, trees and submodules)
+	// are recorded as entries of their own.
+	writeDir := func(name string) error {
+		_, err := zw.CreateHeader(&zip.FileHeader{Name: name, Method: zip.Store, Modified: modTime})
+		return err
+	}
+
+	if prefix != "" && strings.HasSuffix(prefix, "/") {
+		if err := writeDir(prefix); err != nil {
+			return err
+		}
+	}
+
 	walker := object.NewTreeWalker(tree, true, nil)
 	defer walker.Close()
 
@@ -354,32 +367,32 @@ func WriteZipArchive(st storage.Storer, w io.Writer, tree *object.Tree, commitHa
 		}
 		matchedAny = true
 
+		fullName := prefix + name
+
 		if entry.Mode == filemode.Dir || entry.Mode == filemode.Submodule {
+			if err := writeDir(fullName + "/"); err != nil {
+				return err
+			}
 			continue
 		}
 
-		fullName := prefix + name
 		blob, err := object.GetBlob(st, entry.Hash)
 		if err != nil {
 			return err
 		}
-
-		// Extract Unix permission bits from git mode and apply default umask.
-		unixMode := int64(entry.Mode) & 0o777
 
 		fh := &zip.FileHeader{
 			Name:     fullName,
 			Method:   zip.Deflate,
 			Modified: modTime,
 		}
+		// Canonical git records Unix attributes only for executables
+		// (0755) and symbolic links (0777); regular files carry none.
 		switch entry.Mode {
 		case filemode.Executable:
-			fh.SetMode(fs.FileMode(ApplyUmask(unixMode, true)))
+			fh.SetMode(0o755)
 		case filemode.Symlink:
-			// Zip stores symlinks with mode 0o120000 + permissions.
-			fh.SetMode(fs.FileMode(0o120000 | (ApplyUmask(unixMode, true) & 0o777)))
-		default:
-			fh.SetMode(fs.FileMode(ApplyUmask(unixMode, false)))
+			fh.SetMode(fs.ModeSymlink | 0o777)
 		}
 
 		fw, err := zw.CreateHeader(fh)
